@@ -2,7 +2,7 @@ import DracoModel.Wrap
 /-
   DracoProofs.Wrap — the wrap transform (C16): round trip under the no-overflow hypotheses for
   the decoder as written, the counterexample without them (finding F1), and the full round trip
-  for the repaired decoder `Wrap.decOrigFixed`.
+  for the repaired decoder `Wrap.decOrig`.
 -/
 namespace Draco
 namespace Wrap
@@ -61,41 +61,41 @@ theorem encCorr_bounds {lo hi : Int} {t : WrapT} (hb : Bounds t lo hi)
   constructor <;> (repeat' split) <;> omega
 
 /-- core of `wrap_roundtrip_partial` -/
-theorem decOrig_encCorr {lo hi : Int} {t : WrapT} (hb : Bounds t lo hi)
+theorem decOrigUnfixed_encCorr {lo hi : Int} {t : WrapT} (hb : Bounds t lo hi)
     (hd0 : 0 ≤ hi - lo) (hd : hi - lo < 2^31 - 1) (hlo : -2^31 ≤ lo) (hhi : hi < 2^31)
     (orig pred : Int) (ho1 : lo ≤ orig) (ho2 : orig ≤ hi)
     (hov1 : hi + t.maxCorr < 2^31) (hov2 : -2^31 ≤ lo + t.minCorr) :
-    decOrig t pred (encCorr t orig pred) = orig := by
+    decOrigUnfixed t pred (encCorr t orig pred) = orig := by
   obtain ⟨h1, h2, h3, h4, h5⟩ := hb
   obtain ⟨mn, mx, md, mc, nc⟩ := t
   dsimp only at h1 h2 h3 h4 h5 hov1 hov2
+  subst h1 h2 h4 h5
+  unfold decOrigUnfixed encCorr clamp wrap32
+  dsimp only
+  (repeat' split) <;> omega
+
+/-- core of `wrap_roundtrip_fixed`: no overflow hypotheses -/
+theorem decOrig_encCorr {lo hi : Int} {t : WrapT} (hb : Bounds t lo hi)
+    (hd0 : 0 ≤ hi - lo) (hd : hi - lo < 2^31 - 1) (hlo : -2^31 ≤ lo) (hhi : hi < 2^31)
+    (orig pred : Int) (ho1 : lo ≤ orig) (ho2 : orig ≤ hi) :
+    decOrig t pred (encCorr t orig pred) = orig := by
+  obtain ⟨h1, h2, h3, h4, h5⟩ := hb
+  obtain ⟨mn, mx, md, mc, nc⟩ := t
+  dsimp only at h1 h2 h3 h4 h5
   subst h1 h2 h4 h5
   unfold decOrig encCorr clamp wrap32
   dsimp only
   (repeat' split) <;> omega
 
-/-- core of `wrap_roundtrip_fixed`: no overflow hypotheses -/
-theorem decOrigFixed_encCorr {lo hi : Int} {t : WrapT} (hb : Bounds t lo hi)
-    (hd0 : 0 ≤ hi - lo) (hd : hi - lo < 2^31 - 1) (hlo : -2^31 ≤ lo) (hhi : hi < 2^31)
-    (orig pred : Int) (ho1 : lo ≤ orig) (ho2 : orig ≤ hi) :
-    decOrigFixed t pred (encCorr t orig pred) = orig := by
-  obtain ⟨h1, h2, h3, h4, h5⟩ := hb
-  obtain ⟨mn, mx, md, mc, nc⟩ := t
-  dsimp only at h1 h2 h3 h4 h5
-  subst h1 h2 h4 h5
-  unfold decOrigFixed encCorr clamp wrap32
-  dsimp only
-  (repeat' split) <;> omega
-
 /-- the repaired decoder agrees with the decoder as written whenever the 32-bit sum does not
     overflow -/
-theorem decOrigFixed_eq_decOrig {lo hi : Int} {t : WrapT} (hb : Bounds t lo hi)
+theorem decOrig_eq_decOrigUnfixed {lo hi : Int} {t : WrapT} (hb : Bounds t lo hi)
     (hd0 : 0 ≤ hi - lo) (hd : hi - lo < 2^31 - 1) (hlo : -2^31 ≤ lo) (hhi : hi < 2^31)
     (pred corr : Int)
     (hs1 : -2^31 ≤ clamp t pred + corr) (hs2 : clamp t pred + corr < 2^31) :
-    decOrigFixed t pred corr = decOrig t pred corr := by
+    decOrig t pred corr = decOrigUnfixed t pred corr := by
   obtain ⟨h1, h2, h3, h4, h5⟩ := hb
-  unfold decOrigFixed decOrig wrap32
+  unfold decOrig decOrigUnfixed wrap32
   generalize clamp t pred + corr = s at *
   obtain ⟨mn, mx, md, mc, nc⟩ := t
   dsimp only at h1 h2 h3 h4 h5 ⊢
